@@ -148,6 +148,23 @@ def solve_minor_model(
 
     log.debug("[minor] major= {}", major_sol._solution_nice())
     model = lpinterface.model("AldyMinor", solver)
+
+    # Build the model in an order that does not depend on the genome build (nor on
+    # the hash order of sets): variants are ordered by their position and notation
+    # in the reference sequence (RefSeq), loci by their first variant. Otherwise
+    # ties between equally good assignments (and the tie-breaking term of the
+    # objective) are resolved differently for hg19 and hg38.
+    def refseq_key(m):
+        if (m.pos, m.op) in gene.mutations:
+            _, _, _, p, o = gene.mutations[m.pos, m.op]
+            return (p, 0, o)
+        o = gene._reverse_op(m.op) if gene.strand < 0 else m.op
+        return (gene.chr_to_ref.get(m.pos, -1), 1, o)
+
+    mutations = sorted(mutations, key=refseq_key)  # type: ignore
+    mut_order = {m: i for i, m in enumerate(mutations)}
+    positions = list(dict.fromkeys(m.pos for m in mutations))
+    pos_order = {pos: i for i, pos in enumerate(positions)}
     debug_info = json[gene.name]["minor"][len(json[gene.name]["minor"])]
 
     # Establish minor alleles and their mutations
@@ -201,7 +218,7 @@ def solve_minor_model(
                     name=f"MUL_K_{m.pos}_{m.op}_{a[0].major}_{a[0].minor}_{a[1]}",
                 ),
             )
-            for m in alleles[a]
+            for m in sorted(alleles[a], key=refseq_key)
         }
         for a in alleles
     }
@@ -242,7 +259,7 @@ def solve_minor_model(
                 constraints[m] += model.prod(VNEW[a][m][1], [VA[a], VNEW[a][m][0]])
 
     # Fill the constraints for non-variations (i.e. reference genome matches)
-    for pos in set(m.pos for m in constraints):
+    for pos in positions:
         ref_m = Mutation(pos, "_")  # type: ignore
         VERR[ref_m] = model.addVar(lb=-model.INF, ub=model.INF, name=f"E_{pos}_REF")
         constraints[ref_m] = 0
@@ -270,7 +287,10 @@ def solve_minor_model(
     debug_info["cn"] = dict(major_sol.cn_solution.solution)
     debug_info["major"] = {s.major: v for s, v in major_sol.solution.items()}
     debug_info["data"] = []
-    for m, expr in sorted(constraints.items()):
+    for m, expr in sorted(
+        constraints.items(),
+        key=lambda x: (pos_order[x[0].pos], x[0].op != "_", mut_order.get(x[0], -1)),
+    ):
         scov = coverage.single_copy(m, major_sol.cn_solution)
         # If scov = 0, no mutations should be selected at that locus
         # (enforced by other constraints)
@@ -306,7 +326,7 @@ def solve_minor_model(
             )
     # 2) Each allele must express ALL of its functional mutations
     for a in alleles:
-        for m in alleles[a]:
+        for m in sorted(alleles[a], key=refseq_key):
             if gene.is_functional(m):
                 assert m in VKEEP[a]
                 model.addConstr(
@@ -323,7 +343,7 @@ def solve_minor_model(
                 )
     # 4) Avoid extra mutations if there is an existing mutation at the corresponding
     #    locus (either from the definition or added via VNEW)
-    for pos in set(m.pos for m in constraints):
+    for pos in positions:
         for a in alleles:
             mp = [VKEEP[a][m][1] for m in VKEEP[a] if m.pos == pos]
             ma = [VNEW[a][m][1] for m in VNEW[a] if m.pos == pos]
@@ -349,7 +369,7 @@ def solve_minor_model(
             # Ensure that at least one allele picks an existing non-filtered mutation
             model.addConstr(expr >= 1, name=f"CMINONE_{m.pos}_{m.op}")
     # 6) Do the same for non-mutations
-    for pos in set(m.pos for m in constraints):
+    for pos in positions:
         expr = 0
         max_mut = 0
         for a in alleles:
@@ -459,7 +479,7 @@ def solve_minor_model(
             o_penal += coverage.profile.minor_add * (1 + cnt / 1000000) * v[0]
             cnt += 1
     # ... and novel functional mutations from the major model...
-    for m in {m for a in VNEW for m in VNEW[a]}:
+    for m in [m for m in mutations if any(m in VNEW[a] for a in VNEW)]:
         vars = [
             VNEW[a][m][0]
             for a in VNEW
